@@ -107,7 +107,7 @@ CHECKS = {
         category="exploration",
         technique="runtime monitoring under an interpreter-controlled scheduler: Miri many-seeds + monitors (holder count, count invariant, deadlock/race/UB detection), native stress",
         text="The repository's semaphore.rs is included verbatim (#[path]) in a small crate and run under Miri's seeded "
-             "scheduler at three preemption rates over a scenario matrix (2..4 threads, 1..3 acquire/release pairs, initial "
+             "scheduler at three to five preemption rates over a scenario matrix (2..4 threads, 1..3 acquire/release pairs, initial "
              "permits 0..2 incl. a negative start with an external releaser, guards dropped on the acquiring or on another "
              "thread, bounded spurious notify_all through hook H4). Monitors: a shadow holder counter never exceeds the "
              "permits, the count (read under the semaphore's own lock) stays in range, the final count equals initial + "
@@ -117,8 +117,8 @@ CHECKS = {
              "quiescence test. In situ: `group` under a low RLIMIT_NOFILE with far more hashing threads than descriptors (and "
              "zero-sized = auto pools) must finish, never hit EMFILE, and keep the number of simultaneously open tree files "
              "(interposer log) within the permits. Scenarios with a permit held for more than a second of (virtual) time.",
-        note="Exploration of interleavings, not exhaustion: a seeded sample under Miri's scheduler (quick 8 seeds x 3 rates x 54 "
-             "scenarios; thorough 96 seeds x 216 scenarios). Trusted base: Miri's model of std Mutex/Condvar; hook H4 only "
+        note="Exploration of interleavings, not exhaustion: a seeded sample under Miri's scheduler (quick 16 seeds x 3 rates x 56 "
+             "scenarios; thorough 96 seeds x 5 rates x 218 scenarios). Trusted base: Miri's model of std Mutex/Condvar; hook H4 only "
              "adds notify_all/count accessors.",
         design="4/C19"),
     "C07": dict(
